@@ -10,7 +10,7 @@ where
         usize::try_from(n).map_err(|e| io::Error::new(io::ErrorKind::InvalidData, e))
     })?;
 
-    let mut offsets = Vec::with_capacity(len);
+    let mut offsets = Vec::with_capacity(len.min(1 << 16));
 
     for _ in 0..len {
         let compressed = reader.read_u64_le().await?;
